@@ -768,6 +768,7 @@ fn finish_check(spec: &CheckSpec, agg: Agg, t0: Instant) -> i32 {
     let mut printed: HashSet<String> = HashSet::new();
     let mut machinery = agg.machinery.clone();
     let mut violation_list = Vec::new();
+    let mut timing_notes: Vec<String> = Vec::new();
     // one report per (rule, what, program family, configuration); a family is a named scenario or
     // a generator configuration
     let family = |name: &str| name.split('#').next().unwrap_or(name).to_string();
@@ -798,7 +799,17 @@ fn finish_check(spec: &CheckSpec, agg: Agg, t0: Instant) -> i32 {
             continue;
         }
         if !g.reproduced {
-            machinery.push(format!("finding did not reproduce on replay: {key}: {}", g.finding.detail));
+            // The wall-clock rules compare the library's clock readings with the harness's own: when the
+            // operating system suspends a thread between two clock reads (a loaded machine), one
+            // execution can show a deviation that no re-execution shows. Such an observation is not a
+            // finding (only reproduced ones are) and not a failure of the machinery either; it is
+            // recorded. For every other rule a finding that does not reproduce means the harness does
+            // not own some source of nondeterminism: that is a machinery failure.
+            if g.finding.rule == "times" || g.finding.rule == "elapsed" {
+                timing_notes.push(format!("wall-clock observation not reproduced on replay (discarded): {key}: {}", g.finding.detail));
+            } else {
+                machinery.push(format!("finding did not reproduce on replay: {key}: {}", g.finding.detail));
+            }
             continue;
         }
         if !printed.insert(key.clone()) {
@@ -867,6 +878,9 @@ fn finish_check(spec: &CheckSpec, agg: Agg, t0: Instant) -> i32 {
     for m in &machinery {
         eprintln!("MACHINERY: {m}");
     }
+    for m in &timing_notes {
+        eprintln!("NOTE: {m}");
+    }
     let wall = t0.elapsed().as_secs_f64();
     let exhaustive = spec.exhaustive_claim && !agg.capped && machinery.is_empty();
     let ev = serde_json::json!({
@@ -894,6 +908,7 @@ fn finish_check(spec: &CheckSpec, agg: Agg, t0: Instant) -> i32 {
             "known_findings_seen": known_hits.keys().collect::<Vec<_>>(),
             "violation_list": violation_list,
             "machinery_errors": machinery,
+            "wall_clock_observations_discarded": timing_notes,
             "transient_stalls_retried": agg.transient_stalls,
             "explanation": "every explored schedule is an execution of the real fastrace code under the controlled scheduler; states are distinct abstract states (actor positions, pending steps, queue pushes/pops, flags, collector phase, delivered counts) seen at decision points",
         },
